@@ -29,7 +29,7 @@ RULE = (
 ASSUMPTIONS = [
   "MuJoCo 3.13 mj_implicit's qDeriv (float64) is the analytic reference; the finite-difference oracle differentiates MuJoCo's "
   "own qfrc_smooth (central differences, h=1e-5*max(1,|v|)) and is consulted only where it agrees with MuJoCo's analytic value",
-  "MJWarp's D is recovered as (M - out)/dt from its own M, so the allowance is 1e-5*max(1,|D_ij|,sqrt(D_ii*D_jj)) + 2e-6*|M_ij|/dt (about 30 float32 ulps of the M entry the term is accumulated into)",
+  "MJWarp's D is recovered as (M - out)/dt from its own M, so the allowance is 3e-5*max(1,|D_ij|,sqrt(D_ii*D_jj)) + 2e-6*|M_ij|/dt (about 30 float32 ulps of the M entry the term is accumulated into)",
   "the implicit system matrix is assembled with the same internal calls as forward.implicit (deriv_smooth_vel, _map_m2d, "
   "deriv_rne_vel) because implicit() factorises d.qLU in place",
   "velocity after one step: allowance max(1e-4, 3e-7*cond(M - dt*D)) * max(1,|qvel|,dt*|qacc|) + 50*noise(ulp probe of mj_step)",
@@ -37,7 +37,7 @@ ASSUMPTIONS = [
 ]
 BUDGET = {"quick": 150, "thorough": 1500}
 
-A = 1e-5
+A = 3e-5  # qDeriv entries: float32 tendon-wrap moments enter quadratically (clean-tree worst ~1e-3 of the violation line x30)
 
 PROFILE = gen.profile(
   nbody=(2, 7),
